@@ -2,7 +2,7 @@
    documents (C19) and the rendering of a Duration from its exact count (C11). Written from the property text and the
    documentation, not from the implementation. *)
 From Coq Require Import ZArith Bool List.
-From HF Require Import GenText Text Epoch TextFmt.
+From HF Require Import GenText Text Duration Epoch TextFmt.
 Import ListNotations.
 Open Scope Z_scope.
 
@@ -42,3 +42,32 @@ Definition spec_scale_name (t : timescale) : str :=
 Definition spec_epoch_text (y m d h mi s ns : Z) (t : timescale) : str :=
   fmt_int 4 y ++ [45] ++ fmt_int 2 m ++ [45] ++ fmt_int 2 d ++ [84] ++ fmt_int 2 h ++ [58] ++ fmt_int 2 mi ++ [58] ++ fmt_int 2 s ++
   (if ns =? 0 then [] else [46] ++ fmt_int 9 ns) ++ [32] ++ spec_scale_name t.
+
+(* ---- C19: what a format prints, item by item ---- *)
+(* what one item prints, from the Gregorian fields of the epoch in its own scale: None = the token prints nothing (an optional
+   token whose value is zero / UTC), in which case the separators held back before it are dropped as well *)
+Definition spec_item_text (e : epoch) (off : duration) (f : Z * Z * Z * Z * Z * Z * Z) (wd : Z) (it : item) : option (option str) :=
+  let '(y, mm, dd, hh, mi, s, ns) := f in
+  let t := TextFmt.token it in
+  if t =? 0 then Some (Some (fmt_int 4 y)) else if t =? 1 then Some (Some (fmt_int 2 y))
+  else if t =? 2 then Some (Some (fmt_int 2 mm)) else if t =? 3 then Some (Some (fmt_int 2 dd))
+  else if t =? 4 then Some (Some (fmt_int 2 hh)) else if t =? 5 then Some (Some (fmt_int 2 mi)) else if t =? 6 then Some (Some (fmt_int 2 s))
+  else if t =? 7 then Some (if negb (optional it) || (0 <? ns) then Some (fmt_int 9 ns) else None)
+  else if t =? 8 then Some (Some (render_offset off))
+  else if t =? 10 then Some (if negb (optional it) || negb (ts_eqb (scale e) UTC) then Some (ts_name (scale e)) else None)
+  else if t =? 13 then Some (Some (weekday_long wd)) else if t =? 14 then Some (Some (weekday_short wd))
+  else if t =? 16 then Some (Some (month_long mm)) else if t =? 17 then Some (Some (month_short mm))
+  else None.     (* %j, %J, %w, offset minutes: outside this theorem *)
+
+(* the whole output: each item's text preceded by the separators of the item before it, those separators and the text dropped
+   together when an optional token prints nothing; the separators of the last item are never printed *)
+Fixpoint spec_render_items (e : epoch) (off : duration) (f : Z * Z * Z * Z * Z * Z * Z) (wd : Z) (prev : option item) (items : list item) : option str :=
+  match items with
+  | [] => Some []
+  | it :: rest =>
+      match spec_item_text e off f wd it, spec_render_items e off f wd (Some it) rest with
+      | Some (Some x), Some r => Some (write_sep prev ++ x ++ r)
+      | Some None, Some r => Some r
+      | _, _ => None
+      end
+  end.
